@@ -513,3 +513,42 @@ pub(crate) fn run(opts: &Opts, report: &mut Report) {
     report.set("bounds", json!({"shapes": all.iter().map(|i| format!("{} len={} lastN={} peers={} bound={} seeds={}", i.name, i.chain_len, i.last_n, i.peers.len(), i.bound, i.seeds.len())).collect::<Vec<_>>()}));
     report.assume("the honest-server model (RFC 0044/0045 restated, calibrated against the repository's fixtures by the accepted end-to-end runs) is the trusted base of this check");
 }
+
+/// Development aid: C05_ITEM=<name> C05_SEED=<n> [C05_DEVS="5:Restart;9:Restart"] [C05_THOROUGH=1]
+pub(crate) fn debug_case() {
+    let env = Env::dummy();
+    let want = std::env::var("C05_ITEM").unwrap_or_default();
+    let seed: u64 = std::env::var("C05_SEED").ok().and_then(|x| x.parse().ok()).unwrap_or(1);
+    let thorough = std::env::var("C05_THOROUGH").is_ok();
+    let devs: Vec<(usize, Dev)> = std::env::var("C05_DEVS")
+        .unwrap_or_default()
+        .split(';')
+        .filter_map(|s| {
+            let (a, b) = s.split_once(':')?;
+            let step: usize = a.trim().parse().ok()?;
+            let d = match b.trim() {
+                "Restart" => Dev::Restart,
+                "TickRound" => Dev::TickRound,
+                x if x.starts_with("DeliverIndex") => Dev::DeliverIndex(x.trim_start_matches("DeliverIndex(").trim_end_matches(')').parse().ok()?),
+                _ => return None,
+            };
+            Some((step, d))
+        })
+        .collect();
+    for item in items(thorough) {
+        if item.name != want {
+            continue;
+        }
+        let sc = build_scenario(&env, &item, seed);
+        let mut v = vec![];
+        let (sim, out) = explore::run(&sc, None, &devs, 0, true, &mut v);
+        for l in &out.trace {
+            println!("  {}", l);
+        }
+        println!("converged {} panic {:?} bans {:?}", out.converged, out.panic.as_ref().map(|p| p.describe()), sim.bans());
+        for (c, d) in judge(&sim, &out) {
+            println!("  {}: {}", c, d);
+        }
+        break;
+    }
+}
